@@ -112,10 +112,14 @@ def build_stream(spec, pool):
                 return dict(it, kind=0)
             if 4 <= k <= 7 and it['scale'] % 6 in (1, 2, 3, 4):
                 return dict(it, scale=0)
+            if k == 9:  # VALUES(d,o) is switched off below: gen_layout then renders kind 4
+                return dict(it, kind=4, scale=0)
             return it
 
         m['omegas'] = [plain(it) for it in m['omegas']]
         m['sigmas'] = [plain(it) for it in m['sigmas']]
+    # `BLOCK(n) VALUES(d,o)` is refused by pharmpy's reader (C01 finding): it would only cost cases here
+    m['feat'] = dict(m['feat'], omega_values=False)
     crlf = bool(m['noise'].get('crlf'))
     m['noise'] = dict(m['noise'], crlf=False)
     b = c01.build(m)
@@ -466,7 +470,7 @@ def check_noop(text, model, n_etas):
     code = u.code
     if n_etas == 0:
         # documented: update_source gives a model without ETAs a DUMMYETA (code record + $OMEGA)
-        frame_condition(text, code, {'PRED', 'PK', 'OMEGA'}, 'noop[no-etas]')
+        frame_condition(text, code, {'PRED', 'PK', 'OMEGA'}, 'noop:no-etas')
         return u, 'no_etas'
     if code != text:
         what, cb, ca = changed_kinds(text, code)
@@ -493,6 +497,8 @@ def _with_attribution(spec, inner):
     try:
         return inner(spec)
     except Violation as v:
+        if 'noop' not in v.clause:
+            raise  # defects of one kind of edit carry the edit in their clause: nothing to attribute
         x = spec.get('x') or {}
         ops = [op for op in (spec.get('ops') or [])[:8] if isinstance(op, list)]
         on = [f for f in XFLAGS if x.get(f)]
@@ -505,7 +511,9 @@ def _with_attribution(spec, inner):
             s2 = dict(spec, x=dict(x, **{f: False for f in off}), ops=[op for i, op in enumerate(ops) if i not in drop_ops])
             try:
                 inner(s2)
-            except (Violation, Reject):
+            except Violation as v2:
+                return 'noop' in v2.clause
+            except Reject:
                 return True
             return False
 
@@ -703,7 +711,8 @@ def apply_edit(model, edit):
         new = ['run with new title', 'X', 'title ; with semicolon', 'TITLE  two  blanks'][b % 4]
         if new == model.description:
             raise Reject('same')
-        return _call(M.set_description, model, new), 'description', {'PROBLEM'}, info
+        m2 = _call(M.set_description, model, new)  # (does not regenerate the code itself)
+        return _call(m2.update_source), 'description', {'PROBLEM'}, info
     if kind == 7:
         m2 = _call(M.set_name, model, ['run77', 'mod2', 'x'][b % 3])
         return _call(m2.update_source), 'name', {'TABLE'}, info
@@ -795,8 +804,10 @@ def check_code_records(before, after, label):
                 if not _is_subsequence(sb, sa):
                     lost = [x for x in sb if x not in sa] or sb
                     raise Violation(f'{label}:code:{typ}-line-lost-or-reordered', observed=sa, expected=sb, detail=f'${kind}: {lost[:3]}\n--- before\n{cb}\n--- after\n{ca}')
-            if ub[0].text.rstrip('\r\n') != ua[0].text.rstrip('\r\n'):
-                raise Violation(f'{label}:code:record-head-changed', observed=ua[0].text, expected=ub[0].text)
+            # the line carrying the record name may also carry a statement: only the name itself has to stay
+            hb, ha = (re.match(r'[ \t]*\$[A-Za-z]*', u[0].text).group() for u in (ub, ua))
+            if hb != ha:
+                raise Violation(f'{label}:code:record-name-changed', observed=ua[0].text, expected=ub[0].text)
             cnt_b, cnt_a = {}, {}
             # (indentation in front of a statement and blanks after it are not part of the statement)
             for u in ub:
@@ -825,7 +836,7 @@ def check_code_records(before, after, label):
 _OMEGA_WORDS = re.compile(r'^(SD|STAN|COR|CHO|VALUES|SAME)', re.I)
 
 
-def check_param_records(before, after, label, kind, owner_index, item=None):
+def check_param_records(before, after, label, kind, owner_index, item=None, one_value=False):
     """kind = THETA/OMEGA/SIGMA; owner_index = index (among records of that kind) of the record holding the
     edited parameter; item = index of the edited theta within that record (THETA only)."""
     rb, ra = records_of(before, kind), records_of(after, kind)
@@ -874,7 +885,7 @@ def check_param_records(before, after, label, kind, owner_index, item=None):
     if len(nb) != len(na):
         raise Violation(f'{label}:param:value-count-changed', observed=' '.join(ta), expected=' '.join(tb), detail=f'--- before\n{x}\n--- after\n{y}')
     ndiff = sum(1 for p, q in zip(nb, na) if p != q)
-    allowed = 1 if label.endswith('-init') else 0
+    allowed = 1 if one_value else 0
     if ndiff > allowed:
         raise Violation(
             f'{label}:param:untouched-value-respelled',
@@ -929,17 +940,27 @@ def omega_owner(text, kind, eta):
     return None
 
 
+FAMILY = {
+    'theta-init': 'theta', 'theta-fix': 'theta', 'theta-unfix': 'theta', 'theta-lower': 'theta', 'theta-upper': 'theta', 'theta-add': 'theta-add',
+    'omega-init': 'omega', 'omega-fix': 'omega', 'omega-unfix': 'omega', 'sigma-init': 'sigma', 'sigma-fix': 'sigma', 'sigma-unfix': 'sigma',
+    'description': 'description', 'name': 'name', 'est-maxeval': 'est', 'est-add': 'est', 'est-remove': 'est', 'cov-add': 'cov', 'cov-remove': 'cov',
+    'add-iiv': 'add-iiv', 'remove-iiv': 'remove-iiv', 'add-individual-parameter': 'add-individual-parameter',
+}
+
+
 def check_frame(text, model, edit, corpus=False):
     n_etas = len(model.random_variables.etas.names)
-    after_model, label, may, info = apply_edit(model, edit)
+    after_model, edit_label, may, info = apply_edit(model, edit)
     after = after_model.code
-    label = 'frame:' + label
+    family = FAMILY.get(edit_label, 'assignment' if edit_label.startswith('assignment') else edit_label)
+    # clause layout: frame:<family of edit>:<what>:<record kind>  (the precise edit is in the detail and in the classes)
+    label = 'frame:' + family
     may = set(may)
-    classes = [label]
+    classes = ['edit:' + edit_label]
     if n_etas == 0 and len(after_model.random_variables.etas.names) <= 1:
         may |= {'PRED', 'PK', 'OMEGA'}  # documented DUMMYETA
         classes.append('no_etas')
-    if label.startswith('frame:est-'):
+    if family == 'est':
         # the uncertainty method belongs to the last estimation step: adding/removing a step may change it
         def unc(m):
             steps = [st_ for st_ in m.execution_steps if hasattr(st_, 'parameter_uncertainty_method')]
@@ -948,20 +969,53 @@ def check_frame(text, model, edit, corpus=False):
         if unc(model) != unc(after_model):
             may.add('COVARIANCE')
             classes.append('uncertainty-method-changed-with-step')
-    frame_condition(text, after, may, label)
-    if check_code_records(text, after, label):
-        classes.append('code-record-checked')
-    res = None
-    if label in ('frame:theta-init', 'frame:theta-fix', 'frame:theta-unfix', 'frame:theta-lower', 'frame:theta-upper'):
-        own = theta_owner(text, info['theta'])
-        if own is not None:
-            res = check_param_records(text, after, label, 'THETA', own[0], own[1])
-    elif label.split(':')[1] in ('omega-init', 'omega-fix', 'omega-unfix', 'sigma-init', 'sigma-fix', 'sigma-unfix'):
-        own = omega_owner(text, info['which'], info['eta'])
-        if own is not None:
-            res = check_param_records(text, after, label, info['which'], own)
-    if res:
-        classes.append('param:' + res)
+    # Parameter records express the parameters: whatever the edit is called, a record kind counts as unrelated only
+    # if the model component it expresses is the same before and after (e.g. remove_iiv also drops unused thetas)
+    def comp(m, which):
+        rvp = set(m.random_variables.parameter_names)
+        if which == 'THETA':
+            return [(p.name, p.init, p.lower, p.upper, p.fix) for p in m.parameters if p.name not in rvp]
+        sub = m.random_variables.etas if which == 'OMEGA' else m.random_variables.epsilons
+        names = set(sub.parameter_names)
+        return [repr(sub)] + [(p.name, p.init, p.fix) for p in m.parameters if p.name in names]
+
+    for which in ('THETA', 'OMEGA', 'SIGMA'):
+        if which not in may and comp(model, which) != comp(after_model, which):
+            may.add(which)
+            classes.append(f'{which.lower()}-changed-with-edit')
+    try:
+        frame_condition(text, after, may, label)
+        if check_code_records(text, after, label):
+            classes.append('code-record-checked')
+        res = None
+        if family == 'theta':
+            own = theta_owner(text, info['theta'])
+            if own is not None:
+                res = check_param_records(text, after, label, 'THETA', own[0], own[1], one_value=edit_label == 'theta-init')
+        elif family in ('omega', 'sigma'):
+            own = omega_owner(text, info['which'], info['eta'])
+            if own is not None:
+                res = check_param_records(text, after, label, info['which'], own, one_value=edit_label.endswith('-init'))
+        if res:
+            classes.append('param:' + res)
+    except Violation as v:
+        v.detail = f'[edit {edit_label} {info}] ' + (v.detail or '')
+        # Is this the effect of the edit, or does regenerating the *unmodified* model already rewrite the record?
+        # (the no-op defects are judged by the noop sub-check; here they get their own clause so that they do not
+        # hide what the edits themselves do)
+        try:
+            with warnings.catch_warnings():
+                warnings.simplefilter('ignore')
+                noop = model.update_source().code
+        except Exception:  # noqa: judged by the noop sub-check
+            noop = text
+        if noop != text:
+            what, cb, ca = changed_kinds(text, noop)
+            kinds = {k for k, _ in cb + ca}
+            vkind = v.clause.rsplit(':', 1)[-1]
+            if what.startswith('records-reordered') or vkind in kinds or (':param:' in v.clause and (kinds & {'THETA', 'OMEGA', 'SIGMA'})) or (':code:' in v.clause and (kinds & CODE)):
+                raise Violation(f'frame:noop-defect:{what}', observed=v.observed, expected=v.expected, detail='[already rewritten by a no-op update_source] ' + (v.detail or ''))
+        raise
     changed = after != text
     if not changed:
         classes.append('edit-left-text-unchanged')
